@@ -308,6 +308,11 @@ func (so *stateObject) SetBalance(amount *big.Int) {
 	so.account.SetBalance(amount)
 }
 
+// setBalance sets the balance without journaling (used when the journal itself is being reverted).
+func (so *stateObject) setBalance(amount *big.Int) {
+	so.account.SetBalance(amount)
+}
+
 // Balance returns the state object's current balance.
 func (so *stateObject) Balance() *big.Int {
 	return so.account.Balance()
